@@ -1,5 +1,6 @@
 import LyModel.Ctx.LemmasFinal
 import LyModel.Ctx.LemmasUsable
+import LyModel.Ctx.LemmasLatest
 import LyModel.Ctx.Examples
 /-!
 # C09 — a failed schema operation leaves the context as it was
@@ -88,6 +89,11 @@ private theorem hashParts_of_cores (rs : Bool) : ∀ (l l' : List Mod) (fi : Nat
       simp only [hashPartsG, hf, h1, h2]
       rw [ih r' _ hr]
 
+private theorem hash_of_cores {s s' : Ctx} (h : s'.mods.map Mod.core = s.mods.map Mod.core) : s'.modulesHash = s.modulesHash := by
+  simp only [Ctx.modulesHash, Ctx.modulesHashG]
+  rw [hashParts_of_cores _ (hashedMods Generated.CtxFacts.hashSkipsInternal s) (hashedMods Generated.CtxFacts.hashSkipsInternal s') 0
+    (by simp only [hashedMods, List.map_append, h])]
+
 /-- where a failed call ends: nothing was attempted, or forward part + `lys_unres_glob_revert` + `lys_unres_glob_erase` -/
 private theorem run_error {s : Ctx} {op : Op} {e : Nat} {s' : Ctx} (h : run s op = (.error e, s')) :
     s'.mods = s.mods ∨ s'.mods = (revert (forward op s).2).mods := by
@@ -117,7 +123,7 @@ theorem failed_op_restores_partial (s : Ctx) (op : Op) (e : Nat) (s' : Ctx) (hq 
   have hinv : ∀ mk, Inv mk (restore mk s) s := fun mk => ⟨rfl, hq.keys, hq.flags⟩
   rcases run_error hrun with hm | hm
   · -- nothing was attempted
-    refine ⟨fun _ => ⟨by simp [ObsCore, hm], by simp [Ctx.modulesHash, Ctx.modulesHashG, hm]⟩, ⟨default, by simp [ObsExcept, hm]⟩⟩
+    refine ⟨fun _ => ⟨by simp [ObsCore, hm], hash_of_cores (by rw [hm])⟩, ⟨default, by simp [ObsExcept, hm]⟩⟩
   · constructor
     · intro hf
       have h1 := pres_forward_none op hf s (hinv none)
@@ -127,7 +133,7 @@ theorem failed_op_restores_partial (s : Ctx) (op : Op) (e : Nat) (s' : Ctx) (hq 
         have : ∀ l : List Mod, l.map (coreM none) = l.map Mod.core := fun l =>
           List.map_congr_left (fun m _ => coreM_none m)
         rw [← this, ← this]; exact h2
-      exact ⟨obs_of_cores h3, by simp only [Ctx.modulesHash, Ctx.modulesHashG]; rw [hashParts_of_cores _ _ _ _ h3]⟩
+      exact ⟨obs_of_cores h3, hash_of_cores h3⟩
     · obtain ⟨k, hk⟩ := forward_masked op s (hinv none)
       refine ⟨k, obsExcept_of_cores ?_⟩
       rw [hm]
@@ -259,15 +265,38 @@ theorem pending_batch_dropped :
   ⟨s, op, 7, (run s op).2, by decide +kernel, run_eq_error (e := 6) (by decide +kernel),
     by decide +kernel, by decide +kernel⟩
 
-/-- **F130.**  `latest_revision` is outside `ObsCore` for a reason: a newer revision that fails after it was added to the
-    context takes LYS_MOD_LATEST_REV away from the previous latest revision for good (`ly_ctx_get_module_latest` = NULL). -/
-theorem latest_flag_not_restored :
-    ∃ (s : Ctx) (op : Op) (e : Nat) (s' : Ctx), Quiescent s ∧ run s op = (.error e, s') ∧
-      (s.getLatest (bs "aaa")).isSome = true ∧ (s'.getLatest (bs "aaa")).isSome = false :=
-  let s := (run (ctx0 [A19]) (.parse A19 none)).2
-  let op : Op := .parse A20late none
-  ⟨s, op, 7, (run s op).2, Quiescent.ofB (by decide +kernel), run_eq_error (e := 6) (by decide +kernel),
-    by decide +kernel, by decide +kernel⟩
+/-! ### findings that were repaired: the statement for the code before the repair (`…` with the `Cfg` field `false`) and for
+the code after it (`true`).  `Cfg.code` — read from the sources on every run — says which of the two is about the code as it is. -/
+
+/-- the history of the F130 witness in a context with parameters `c`: `aaa@2019-01-01` loaded, then `aaa@2020-01-01` whose
+    identity base does not resolve -/
+def w130 (c : Cfg) : Ctx × Op := ((run (ctx0 [A19] false c) (.parse A19 none)).2, .parse A20late none)
+
+/-- **F130, before the repair.**  `latest_revision` is outside `ObsCore` for a reason: a newer revision that fails after it was
+    added to the context takes LYS_MOD_LATEST_REV away from the previous latest revision for good
+    (`ly_ctx_get_module_latest` = NULL). -/
+theorem latest_flag_not_restored (c : Cfg) (hc : c.restoreLatest = false) :
+    ∃ (s : Ctx) (op : Op) (e : Nat) (s' : Ctx), s.cfg = c ∧ Quiescent s ∧ run s op = (.error e, s') ∧
+      (s.getLatest (bs "aaa")).isSome = true ∧ (s'.getLatest (bs "aaa")).isSome = false := by
+  have h : ∀ c : Cfg, c.restoreLatest = false → (w130 c).1.cfg = c ∧ quiescentB (w130 c).1 = true ∧
+      rc (run (w130 c).1 (w130 c).2).1 = 6 + 1 ∧ ((w130 c).1.getLatest (bs "aaa")).isSome = true ∧
+      ((run (w130 c).1 (w130 c).2).2.getLatest (bs "aaa")).isSome = false := forall_cfg (by decide +kernel)
+  obtain ⟨h1, h2, h3, h4, h5⟩ := h c hc
+  exact ⟨(w130 c).1, (w130 c).2, 7, (run (w130 c).1 (w130 c).2).2, h1, Quiescent.ofB h2, run_eq_error h3, h4, h5⟩
+
+/-- **F130, after the repair** (`lys_unres_glob_revert` hands LYS_MOD_LATEST_REV to the newest remaining revision): the same
+    failed call leaves `aaa@2019-01-01` the latest revision, with the very flags it had. -/
+theorem latest_flag_restored (c : Cfg) (hc : c.restoreLatest = true) :
+    let s := (w130 c).1
+    let s' := (run s (w130 c).2).2
+    Quiescent s ∧ rc (run s (w130 c).2).1 = 7 ∧ (s'.getLatest (bs "aaa")).isSome = true ∧
+      s'.mods.map (fun m => (m.key, m.latest.rev)) = s.mods.map (fun m => (m.key, m.latest.rev)) := by
+  have h : ∀ c : Cfg, c.restoreLatest = true → quiescentB (w130 c).1 = true ∧ rc (run (w130 c).1 (w130 c).2).1 = 7 ∧
+      ((run (w130 c).1 (w130 c).2).2.getLatest (bs "aaa")).isSome = true ∧
+      (run (w130 c).1 (w130 c).2).2.mods.map (fun m => (m.key, m.latest.rev)) = (w130 c).1.mods.map (fun m => (m.key, m.latest.rev)) :=
+    forall_cfg (by decide +kernel)
+  obtain ⟨h1, h2, h3, h4⟩ := h c hc
+  exact ⟨Quiescent.ofB h1, h2, h3, h4⟩
 
 /-- **F24.**  `data_stays_usable` is false: the failed load of a module that augments the implemented module `aaa`
     recompiles `aaa` twice (with the augment, then without it); the compiled nodes live data points to are gone. -/
@@ -281,17 +310,38 @@ theorem data_stays_usable_fails :
   revert this
   decide +kernel
 
-/-- **F137.**  "Same compiled schema for every module" is false even between two calls of a context without explicit
+/-- the context of the F137 witness: `mdd` parsed from sources `maa`, `mbb`, `mcc`, `mdd`, `mzz` -/
+def w137 (c : Cfg) : Ctx := (run (ctx0 [Ma, Mb, Mc, Md, Mz] false c) (.parse Md none)).2
+
+/-- **F137, before the repair.**  "Same compiled schema for every module" is false even between two calls of a context without explicit
     compilation: the successful `lys_parse(mdd)` implements `maa` (augment target of `mbb`, which is implemented for a leafref
     of `mcc`, which is implemented for a leafref of `mdd`) without ever compiling it; the failed `lys_parse(mzz)` — a module
     that does not compile — gives `maa` its compiled module through the recompilation in `lys_unres_glob_revert`. -/
-theorem compiled_schema_not_restored :
-    ∃ (s : Ctx) (op : Op) (e : Nat) (s' : Ctx), Quiescent s ∧ s.explicit = false ∧ run s op = (.error e, s') ∧ ObsCore s' = ObsCore s ∧
-      s.mods.map (fun m => (m.key, m.implemented, m.compiled.isSome)) ≠ s'.mods.map (fun m => (m.key, m.implemented, m.compiled.isSome)) :=
-  let s := (run (ctx0 [Ma, Mb, Mc, Md, Mz]) (.parse Md none)).2
-  let op : Op := .parse Mz none
-  ⟨s, op, 7, (run s op).2, Quiescent.ofB (by decide +kernel), by decide +kernel, run_eq_error (e := 6) (by decide +kernel),
-    by decide +kernel, by decide +kernel⟩
+theorem compiled_schema_not_restored (c : Cfg) (hc : c.compilesTargets = false) :
+    ∃ (s : Ctx) (op : Op) (e : Nat) (s' : Ctx), s.cfg = c ∧ Quiescent s ∧ s.explicit = false ∧ run s op = (.error e, s') ∧
+      ObsCore s' = ObsCore s ∧
+      s.mods.map (fun m => (m.key, m.implemented, m.compiled.isSome)) ≠ s'.mods.map (fun m => (m.key, m.implemented, m.compiled.isSome)) := by
+  have h : ∀ c : Cfg, c.compilesTargets = false → (w137 c).cfg = c ∧ quiescentB (w137 c) = true ∧ (w137 c).explicit = false ∧
+      rc (run (w137 c) (.parse Mz none)).1 = 6 + 1 ∧ ObsCore (run (w137 c) (.parse Mz none)).2 = ObsCore (w137 c) ∧
+      (w137 c).mods.map (fun m => (m.key, m.implemented, m.compiled.isSome)) ≠
+        (run (w137 c) (.parse Mz none)).2.mods.map (fun m => (m.key, m.implemented, m.compiled.isSome)) := forall_cfg (by decide +kernel)
+  obtain ⟨h1, h2, h3, h4, h5, h6⟩ := h c hc
+  exact ⟨w137 c, .parse Mz none, 7, (run (w137 c) (.parse Mz none)).2, h1, Quiescent.ofB h2, h3, run_eq_error h4, h5, h6⟩
+
+/-- **F137, after the repair** (`lys_compile_expr_implement` compiles every module implemented together with the referenced
+    one): after the successful `lys_parse(mdd)` every implemented module is compiled, and the failed `lys_parse(mzz)` leaves
+    the same modules compiled. -/
+theorem implemented_targets_compiled (c : Cfg) (hc : c.compilesTargets = true) :
+    let s := w137 c
+    let s' := (run s (.parse Mz none)).2
+    Quiescent s ∧ (s.mods.all fun m => !m.implemented || m.compiled.isSome) = true ∧ rc (run s (.parse Mz none)).1 = 7 ∧
+      s.mods.map (fun m => (m.key, m.implemented, m.compiled.isSome)) = s'.mods.map (fun m => (m.key, m.implemented, m.compiled.isSome)) := by
+  have h : ∀ c : Cfg, c.compilesTargets = true → quiescentB (w137 c) = true ∧
+      ((w137 c).mods.all fun m => !m.implemented || m.compiled.isSome) = true ∧ rc (run (w137 c) (.parse Mz none)).1 = 7 ∧
+      (w137 c).mods.map (fun m => (m.key, m.implemented, m.compiled.isSome)) =
+        (run (w137 c) (.parse Mz none)).2.mods.map (fun m => (m.key, m.implemented, m.compiled.isSome)) := forall_cfg (by decide +kernel)
+  obtain ⟨h1, h2, h3, h4⟩ := h c hc
+  exact ⟨Quiescent.ofB h1, h2, h3, h4⟩
 
 -- OPEN: compiled_schema_restored_partial —
 --   ∀ s op e s', Quiescent s → (every implemented module of s is compiled and its compiled content is up to date:
@@ -306,27 +356,98 @@ theorem compiled_schema_not_restored :
 def laterLoad (t : Ctx) : Except Nat Unit × Ctx :=
   run (run { t with repo := t.repo ++ [A20] } (.load (bs "aaa") (some (bs "2020-01-01")) none)).2 (.parse C none)
 
-/-- **F132.**  "A later load of a correct module behaves as if the failed attempt never happened" is false: the failed
+/-- the context of the F132 witness: `xxx` (imports `aaa` by revision-date 2019-01-01) parsed -/
+def w132 (c : Cfg) : Ctx := (run (ctx0 [A19, X] false c) (.parse X none)).2
+
+/-- **F132, before the repair.**  "A later load of a correct module behaves as if the failed attempt never happened" is false: the failed
     call leaves LYS_MOD_IMPORTED_REV on `aaa@2019-01-01`; after `aaa@2020-01-01` has been loaded and implemented, the
     correct module `ccc` loads from the untouched context and is refused (LY_EDENIED) from the one that saw the failed
     attempt — although both show the same modules, flags and features. -/
-theorem later_load_differs :
-    ∃ (s : Ctx) (op : Op) (e : Nat) (s' : Ctx), Quiescent s ∧ run s op = (.error e, s') ∧ ObsCore s' = ObsCore s ∧
-      rc (laterLoad s).1 = 0 ∧ rc (laterLoad s').1 = 8 :=
-  let s := (run (ctx0 [A19, X]) (.parse X none)).2
-  let op : Op := .parse Bbad none
-  ⟨s, op, 7, (run s op).2, Quiescent.ofB (by decide +kernel), run_eq_error (e := 6) (by decide +kernel),
-    by decide +kernel, by decide +kernel, by decide +kernel⟩
+theorem later_load_differs (c : Cfg) (hc : c.recomputeImported = false) :
+    ∃ (s : Ctx) (op : Op) (e : Nat) (s' : Ctx), s.cfg = c ∧ Quiescent s ∧ run s op = (.error e, s') ∧ ObsCore s' = ObsCore s ∧
+      rc (laterLoad s).1 = 0 ∧ rc (laterLoad s').1 = 8 := by
+  have h : ∀ c : Cfg, c.recomputeImported = false → (w132 c).cfg = c ∧ quiescentB (w132 c) = true ∧
+      rc (run (w132 c) (.parse Bbad none)).1 = 6 + 1 ∧ ObsCore (run (w132 c) (.parse Bbad none)).2 = ObsCore (w132 c) ∧
+      rc (laterLoad (w132 c)).1 = 0 ∧ rc (laterLoad (run (w132 c) (.parse Bbad none)).2).1 = 8 := forall_cfg (by decide +kernel)
+  obtain ⟨h1, h2, h3, h4, h5, h6⟩ := h c hc
+  exact ⟨w132 c, .parse Bbad none, 7, (run (w132 c) (.parse Bbad none)).2, h1, Quiescent.ofB h2, run_eq_error h3, h4, h5, h6⟩
 
-/-- **F134.**  A *successful* call can leave a half-parsed module behind: looking for a newer revision for a dateless
+/-- **F132, after the repair** (`lys_unres_glob_revert` recomputes LYS_MOD_IMPORTED_REV from the imports that remain): the
+    failed call leaves LYS_MOD_LATEST_REV and LYS_MOD_IMPORTED_REV of every module as they were (LYS_MOD_LATEST_SEARCHDIRS, set on
+    `aaa@2019-01-01` because the callback had nothing newer, stays) and the later load of `ccc` succeeds, ending in the same observable
+    context as without the failed attempt. -/
+theorem later_load_same (c : Cfg) (hc : c.recomputeImported = true) :
+    let s := w132 c
+    let s' := (run s (.parse Bbad none)).2
+    Quiescent s ∧ rc (run s (.parse Bbad none)).1 = 7 ∧ s'.mods.map (fun m => (m.key, m.latest.rev, m.latest.imp)) = s.mods.map (fun m => (m.key, m.latest.rev, m.latest.imp)) ∧
+      rc (laterLoad s').1 = 0 ∧ ObsCore (laterLoad s').2 = ObsCore (laterLoad s).2 := by
+  have h : ∀ c : Cfg, c.recomputeImported = true → quiescentB (w132 c) = true ∧ rc (run (w132 c) (.parse Bbad none)).1 = 7 ∧
+      (run (w132 c) (.parse Bbad none)).2.mods.map (fun m => (m.key, m.latest.rev, m.latest.imp)) =
+        (w132 c).mods.map (fun m => (m.key, m.latest.rev, m.latest.imp)) ∧
+      rc (laterLoad (run (w132 c) (.parse Bbad none)).2).1 = 0 ∧
+      ObsCore (laterLoad (run (w132 c) (.parse Bbad none)).2).2 = ObsCore (laterLoad (w132 c)).2 := forall_cfg (by decide +kernel)
+  obtain ⟨h1, h2, h3, h4, h5⟩ := h c hc
+  exact ⟨Quiescent.ofB h1, h2, h3, h4, h5⟩
+
+/-- the context of the F134 witness: `xxx` parsed; the sources also hold `aaa@2020-01-01` (fails late) and `top` -/
+def w134 (c : Cfg) : Ctx := (run (ctx0 [A19, X, A20late, Top] false c) (.parse X none)).2
+
+/-- **F132, after the repair, in general.**  In a context in which LYS_MOD_IMPORTED_REV marks exactly the modules that are
+    imported without revision-date (`ImpOk`; the code sets the flag nowhere else — the contexts of the witnesses are such contexts),
+    EVERY failed call — any operation, any failure point, with or without a `features` argument — leaves the flag of every
+    module as it was: the failed attempt cannot redirect later dateless imports. -/
+theorem imported_rev_restored (s : Ctx) (op : Op) (e : Nat) (s' : Ctx) (hq : Quiescent s)
+    (hcfg : s.cfg.recomputeImported = true) (himp : s.ImpOk) (hrun : run s op = (.error e, s')) :
+    s'.mods.map (fun m => (m.key, m.latest.imp)) = s.mods.map (fun m => (m.key, m.latest.imp)) := by
+  rcases run_error hrun with hm | hm
+  · rw [hm]
+  · have hinv : Inv none (restore none s) s := ⟨rfl, hq.keys, hq.flags⟩
+    obtain ⟨k, hk⟩ := forward_masked op s hinv
+    have hk' : Inv (some k) (restore (some k) s) (forward op s).2 := by
+      have : (restore none s).map (maskCore k) = restore (some k) s := by
+        simp only [restore, List.map_map]
+        apply List.map_congr_left
+        intro m _
+        exact (restoredCore_mask _ k m).symm
+      rw [← this]; exact hk
+    have hc := revert_cores hq.noCreating hq.noImplementing hq.lrefs hk'
+    rw [← hm] at hc
+    have hok : ImpOkL (s'.mods.map Mod.lview) := by
+      rw [hm]
+      exact revert_impOk _ (by rw [(cfg_constant s op).2]; exact hcfg)
+    exact impOk_determined (dateless_of_coreM hc) hok himp
+
+/-- non-vacuity: the context of the F132 witness is such a context, and the call fails in it -/
+example : (w132 ⟨true, true, true, true, true⟩).ImpOk ∧ Quiescent (w132 ⟨true, true, true, true, true⟩) ∧
+    rc (run (w132 ⟨true, true, true, true, true⟩) (.parse Bbad none)).1 = 7 :=
+  ⟨Ctx.ImpOk.ofB (by decide +kernel), Quiescent.ofB (by decide +kernel), by decide +kernel⟩
+
+/-- **F134, before the repair.**  A *successful* call can leave a half-parsed module behind: looking for a newer revision for a dateless
     import, `lys_parse_load_from_clb_or_file` ignores the failure of `lys_parse_in`, but the module had already been
     added to the context (and nothing reverts, because the call as a whole succeeds). -/
-theorem nested_failure_leaves_debris :
-    ∃ (s : Ctx) (op : Op) (s' : Ctx), Quiescent s ∧ run s op = (.ok (), s') ∧ (s.mods.all fun m => !m.broken) = true ∧
-      (s'.mods.any fun m => m.broken) = true :=
-  let s := (run (ctx0 [A19, X, A20late, Top]) (.parse X none)).2
-  let op : Op := .parse Top none
-  ⟨s, op, (run s op).2, Quiescent.ofB (by decide +kernel), run_eq_ok (by decide +kernel),
-    by decide +kernel, by decide +kernel⟩
+theorem nested_failure_leaves_debris (c : Cfg) (hc : c.loadPropagates = false) :
+    ∃ (s : Ctx) (op : Op) (s' : Ctx), s.cfg = c ∧ Quiescent s ∧ run s op = (.ok (), s') ∧ (s.mods.all fun m => !m.broken) = true ∧
+      (s'.mods.any fun m => m.broken) = true := by
+  have h : ∀ c : Cfg, c.loadPropagates = false → (w134 c).cfg = c ∧ quiescentB (w134 c) = true ∧
+      isOk (run (w134 c) (.parse Top none)).1 = true ∧ ((w134 c).mods.all fun m => !m.broken) = true ∧
+      ((run (w134 c) (.parse Top none)).2.mods.any fun m => m.broken) = true := forall_cfg (by decide +kernel)
+  obtain ⟨h1, h2, h3, h4, h5⟩ := h c hc
+  exact ⟨w134 c, .parse Top none, (run (w134 c) (.parse Top none)).2, h1, Quiescent.ofB h2, run_eq_ok h3, h4, h5⟩
+
+/-- **F134, after the repair** (`lys_parse_load_from_clb_or_file` returns the error of a module that failed after it was added
+    to the context when another module would be used instead): the same call fails, everything is reverted — the modules,
+    their flags and (when F130 is repaired as well) LYS_MOD_LATEST_REV are those from before, no half-parsed module stays. -/
+theorem nested_failure_reverted (c : Cfg) (hc : c.loadPropagates = true) :
+    let s := w134 c
+    let s' := (run s (.parse Top none)).2
+    Quiescent s ∧ rc (run s (.parse Top none)).1 = 7 ∧ (s'.mods.all fun m => !m.broken) = true ∧ ObsCore s' = ObsCore s ∧
+      (!c.restoreLatest || s'.mods.map (fun m => (m.key, m.latest.rev)) == s.mods.map (fun m => (m.key, m.latest.rev))) = true := by
+  have h : ∀ c : Cfg, c.loadPropagates = true → quiescentB (w134 c) = true ∧ rc (run (w134 c) (.parse Top none)).1 = 7 ∧
+      ((run (w134 c) (.parse Top none)).2.mods.all fun m => !m.broken) = true ∧
+      ObsCore (run (w134 c) (.parse Top none)).2 = ObsCore (w134 c) ∧
+      (!c.restoreLatest || (run (w134 c) (.parse Top none)).2.mods.map (fun m => (m.key, m.latest.rev)) ==
+        (w134 c).mods.map (fun m => (m.key, m.latest.rev))) = true := forall_cfg (by decide +kernel)
+  obtain ⟨h1, h2, h3, h4, h5⟩ := h c hc
+  exact ⟨Quiescent.ofB h1, h2, h3, h4, h5⟩
 
 end LyModel.Props.C09
